@@ -25,13 +25,13 @@ FMT_RULE = ("cases are generated from one splitmix64 state (VERIF_SEED, op, inde
 HOOK_COMMITS = ["94169f7", "6cd8fd8", "2937117"]
 
 ENGINES = [
-    {"name": "extractor", "path": "extract/", "serves_properties": ["C02", "C03", "C04", "C05", "C06", "C08", "C09", "C10", "C11", "C12", "C13", "C14", "C15", "C17", "C19"],
+    {"name": "extractor", "path": "extract/", "serves_properties": ["C02", "C03", "C04", "C05", "C06", "C08", "C09", "C10", "C11", "C12", "C13", "C14", "C15", "C16", "C17", "C19"],
      "kind_free_text": "Go (go/ast): regenerates lean/Carapace/Gen (replacer tables, character sets, format strings, shell lists) from /repo on every run"},
-    {"name": "lean", "path": "lean/", "serves_properties": ["C02", "C03", "C04", "C05", "C06", "C08", "C09", "C10", "C11", "C12", "C13", "C14", "C15", "C17", "C19"],
+    {"name": "lean", "path": "lean/", "serves_properties": ["C02", "C03", "C04", "C05", "C06", "C08", "C09", "C10", "C11", "C12", "C13", "C14", "C15", "C16", "C17", "C19"],
      "kind_free_text": "Lean 4 library: Model (transcription of the code), Spec (readers, decoders, oracles), Props (theorems); compiled driver lean/Driver"},
-    {"name": "harness", "path": "harness/", "serves_properties": ["C02", "C03", "C04", "C05", "C06", "C08", "C09", "C10", "C11", "C12", "C13", "C14", "C15", "C17", "C19"],
+    {"name": "harness", "path": "harness/", "serves_properties": ["C02", "C03", "C04", "C05", "C06", "C08", "C09", "C10", "C11", "C12", "C13", "C14", "C15", "C16", "C17", "C19"],
      "kind_free_text": "Go module linking the real packages from /repo with -tags verif; generators and in-process execution, one JSON line per case"},
-    {"name": "runner", "path": "check", "serves_properties": ["C02", "C03", "C04", "C05", "C06", "C08", "C09", "C10", "C11", "C12", "C13", "C14", "C15", "C17", "C19"],
+    {"name": "runner", "path": "check", "serves_properties": ["C02", "C03", "C04", "C05", "C06", "C08", "C09", "C10", "C11", "C12", "C13", "C14", "C15", "C16", "C17", "C19"],
      "kind_free_text": "python3 (stdlib): orchestration, known-finding classification by input neutralisation, shrinking, evidence"},
 ]
 
@@ -162,6 +162,18 @@ PROPS.update({
             "level_text": ("Model-time theorems: `C19_bound` (the caller returns at time <= d however long the wrapped action runs, even if it never returns), `C19_late` (then exactly the alternative), `C19_timely` (a wrapped action that finishes before d yields exactly its result, as a whole), `C19_hb` (write -> send -> receive -> read: the caller never reads the result before the goroutine wrote it), `C19_send_never_blocks` for the channel capacity and go/send/select shape read from the source on every run. "
                            "Partial by nature: wall-clock margin and data races of the abandoned computation are searched (elapsed time per invocation, repeated invocations of the same wrapped value, race detector), not proved."),
             "level_note": "Trusted: Lean kernel + propext/Classical.choice/Quot.sound; the Go memory model's channel rule; the extractor (channel capacity, go/send/select shape of Action.Timeout). Modelled: the logic of Timeout in abstract time. Runtime behaviour (scheduler, timers, races) only searched."},
+})
+
+
+PROPS.update({
+    "C16": {"modules": ["Carapace.Props.C16"], "ops": [("files", {"quick": 3000, "thorough": 150000})],
+            "rule": "random trees (1-5 directories nested up to 3 deep, 0-7 files, 0-3 symlinks to directories / files / nowhere / `.` / `..` with absolute and relative targets; names with blanks, quotes, non-ASCII text, leading dots and dashes) materialised in a scratch directory; Context directory anywhere in the tree, process working directory elsewhere; typed paths: prefixes of existing paths, `./`, `../`, absolute, `~/`, trailing slash, dot segments, 8% unclean forms; ActionFiles with suffix filters / ActionDirectories; 15% wrapped in Chdir (relative, absolute, non-existent, a file); non-trivial = the denoted directory is readable; distinct = distinct input digest",
+            "assumptions": ["the file system is read by the harness with os.ReadDir / Lstat / Stat of the directory the typed path denotes (OS path resolution is not modelled); path/filepath's lexical functions are modelled (dependency)",
+                            "unreadable (mode 000) directories cannot be produced as root in this sandbox; non-existent directories are", "`~user` forms and Windows volume prefixes are outside the generator"],
+            "claimed": True, "engine": "fs",
+            "level_text": ("Theorems about the listing logic of the model: `C16_entry_shape` (every candidate is the display folder, the entry name and `/` for a directory), `C16_entry_hidden`, `C16_entry_dir` (directories and links to directories with a trailing `/` whatever the filter), `C16_entry_file` (regular files only for ActionFiles and only with an allowed suffix), `C16_spec_hidden`; the cleaning of the typed directory part is a decided counterexample against the independent listing specification and a listed finding; the MultiParts stage is C11. "
+                           "Correspondence: the model (lexical path functions + listing + MultiParts) is compared exactly with the real ActionFiles / ActionDirectories / Chdir on generated trees; oracle on the real result: set equality with `Spec.listing` of the directory the typed path denotes relative to the Context directory (never the process directory), no-space for directories, a message and no values for unreadable directories and invalid Chdir targets."),
+            "level_note": "Trusted: Lean kernel + propext/Classical.choice/Quot.sound; the OS (the harness reads the denoted directory itself); the harness and generators. Modelled, not verified: internalActions.go actionPath, context.go Abs, path/filepath Clean/Dir/Base, MultiParts - bound by exact comparison on generated trees."},
 })
 
 
